@@ -390,11 +390,32 @@ fn stag(input: &str) -> IResult<&str, model::Element<'_>> {
     map(
         delimited(
             tag("<"),
-            tuple((qname, many0(preceded(multispace1, attribute)))),
+            tuple((
+                qname,
+                verify(
+                    many0(preceded(multispace1, attribute)),
+                    |v: &[model::Attribute<'_>]| unique_att_spec(v),
+                ),
+            )),
             tuple((multispace0, tag(">"))),
         ),
         model::Element::from,
     )(input)
+}
+
+/// No attribute name may appear more than once in the same start-tag or empty-element tag.
+///
+/// [WFC: Unique Att Spec](https://www.w3.org/TR/2008/REC-xml-20081126/#uniqattspec)
+fn unique_att_spec(attributes: &[model::Attribute<'_>]) -> bool {
+    for (i, a) in attributes.iter().enumerate() {
+        for b in &attributes[..i] {
+            if a.name == b.name {
+                return false;
+            }
+        }
+    }
+
+    true
 }
 
 /// Name Eq AttValue
@@ -457,7 +478,13 @@ fn empty_entity_tag(input: &str) -> IResult<&str, model::Element<'_>> {
     map(
         delimited(
             tag("<"),
-            tuple((qname, many0(preceded(multispace1, attribute)))),
+            tuple((
+                qname,
+                verify(
+                    many0(preceded(multispace1, attribute)),
+                    |v: &[model::Attribute<'_>]| unique_att_spec(v),
+                ),
+            )),
             tuple((multispace0, tag("/>"))),
         ),
         model::Element::from,
